@@ -22,14 +22,22 @@ def baseName : Gen.C19Eng.EBase → String
   | .bin => "bin" | .oct => "oct" | .dec => "dec" | .hex => "hex"
 
 def tables : String :=
-  let pd := Gen.C19Eng.permittedDigits.map fun (b, cs) => baseName b ++ ":" ++ String.ofList cs
-  let bw := Gen.C19Eng.bitWidths.map fun (b, w) => baseName b ++ ":" ++ toString w
+  let bl (b : Bool) : String := if b then "true" else "false"
+  let pd := Gen.C19Eng.permittedDigits.map fun (b, cs) => baseName b ++ ":" ++ textWire cs
   let bn := Gen.C19Eng.baseNumbers.map fun (b, w) => baseName b ++ ":" ++ toString w
-  let bd := Gen.C19Eng.bounds.map fun (a, b, w) => baseName a ++ "+" ++ baseName b ++ ":" ++ toString w
+  let sw := Gen.C19Eng.signWidths.map fun (b, w) => baseName b ++ ":" ++ toString w
+  let bw := Gen.C19Eng.bitWidths.map fun (b, w) => baseName b ++ ":" ++ toString w
+  let md := Gen.C19Eng.maxDigits.map fun (b, w) => baseName b ++ ":" ++ toString w
+  let bd := Gen.C19Eng.bounds.map fun (a, b, lo, hi) =>
+    baseName a ++ ">" ++ baseName b ++ ":" ++ toString lo ++ ".." ++ toString hi
   let wr := Gen.C19Eng.wrappers.map fun (n, o, d, p) =>
     String.ofList n ++ ":" ++ baseName o ++ ">" ++ baseName d ++ (if p then "+p" else "")
-  kv [("digits", ",".intercalate pd), ("widths", ",".intercalate bw), ("bases", ",".intercalate bn),
-      ("bounds", ",".intercalate bd), ("wrappers", ",".intercalate wr)]
+  kv [("digits", ",".intercalate pd), ("percharacter", bl Gen.C19Eng.digitsPerCharacter),
+      ("bases", ",".intercalate bn), ("signwidths", ",".intercalate sw), ("widths", ",".intercalate bw),
+      ("maxdigits", ",".intercalate md), ("bounds", ",".intercalate bd),
+      ("places", toString Gen.C19Eng.placesMin ++ ".." ++ toString Gen.C19Eng.placesMax),
+      ("upper", bl Gen.C19Eng.upperCase), ("negkeeps", bl Gen.C19Eng.negativeKeepsDigits),
+      ("wrappers", ",".intercalate wr)]
 
 def handle (fields : List String) : String :=
   match fields with
